@@ -11,7 +11,7 @@ Open Scope Z_scope.
 (* make_whole, whatever the bond list: every atom ends at its original position minus an integer combination
    of the frame's cell vectors (the combination the model carries along) *)
 Theorem whole_lattice_moves : forall B bonds xyz, tracks B xyz (make_whole B bonds (init_state xyz)).
-Proof. intros B bonds xyz. exact (tracks_make_whole B xyz bonds _ (tracks_init B xyz)). Qed.
+Proof. exact whole_tracks. Qed.
 Print Assumptions whole_lattice_moves.
 
 (* image_molecules (one frame, with or without the make_whole stage, any anchors/others): the same -- the
